@@ -32,6 +32,8 @@ type Params struct {
 	Pubs    [][]MsgP // one thread per entry
 	PreInit bool
 	Preempt int
+	// Shutdown: a thread notes which Publish calls have returned and then calls Shutdown while everything runs.
+	Shutdown bool
 }
 
 type world struct {
@@ -39,6 +41,10 @@ type world struct {
 	Subs []*jo.Sub
 	Msgs []*jo.Msg
 	Shut error
+	// concurrent Shutdown
+	Conc        bool
+	DoneBefore  map[string]bool
+	ConcShutErr error
 }
 
 func body(p Params) func() {
@@ -97,6 +103,20 @@ func body(p Params) func() {
 				}
 			}))
 		}
+		if p.Shutdown {
+			w.Conc = true
+			others = append(others, vrt.GoNamed("D", func() {
+				w.DoneBefore = map[string]bool{}
+				vrt.Yield("D: snapshot published, shutdown")
+				for pi, d := range done {
+					n := int(d.Peek())
+					for k := 0; k < n; k++ {
+						w.DoneBefore[p.Pubs[pi][k].Tag] = true
+					}
+				}
+				w.ConcShutErr = j.Shutdown(context.Background())
+			}))
+		}
 		vrt.Join(others...)
 		w.Shut = j.Shutdown(context.Background())
 		vrt.Join(subs...)
@@ -104,7 +124,8 @@ func body(p Params) func() {
 }
 
 func spec(w *world) *jo.Spec {
-	return &jo.Spec{JL: w.JL, HasReplayer: true, Subs: w.Subs, Msgs: w.Msgs, Ignore: map[string]bool{"init": true}}
+	return &jo.Spec{JL: w.JL, HasReplayer: true, Subs: w.Subs, Msgs: w.Msgs, Ignore: map[string]bool{"init": true},
+		ConcurrentShutdown: w.Conc, DoneBeforeShutdown: w.DoneBefore}
 }
 
 func check(r *vrt.Result) string {
@@ -112,7 +133,11 @@ func check(r *vrt.Result) string {
 		return r.Outcome + ": " + r.Msg
 	}
 	w := r.User.(*world)
-	if w.Shut != nil {
+	if w.Conc {
+		if w.ConcShutErr != nil || w.Shut != sse.ErrProviderClosed {
+			return fmt.Sprintf("the concurrent Shutdown returned %v and the one after it %v, want nil and ErrProviderClosed", w.ConcShutErr, w.Shut)
+		}
+	} else if w.Shut != nil {
 		return fmt.Sprintf("Shutdown returned %v", w.Shut)
 	}
 	return jo.Check(spec(w))
@@ -152,7 +177,7 @@ func sig(r *vrt.Result, msg string) string {
 
 func scen(p Params) run.Scenario {
 	return run.Scenario{Name: p.Name, Body: body(p), Check: check, Sig: sig, Summary: summary,
-		Opts: vrt.Options{PreemptBound: p.Preempt, FaultBound: -1, OrderBound: -1, Prune: true}}
+		Opts: vrt.Options{PreemptBound: p.Preempt, FaultBound: -1, OrderBound: -1, Prune: true, Race: true}}
 }
 
 var (
@@ -185,6 +210,15 @@ func Scenarios(tier string) []run.Scenario {
 		add(Params{Name: fmt.Sprintf("overlap-cancel%d", cancelWho), PreInit: true, Preempt: -1,
 			Subs: []SubP{{Topics: tAB, Cancel: cancelWho == 1}, {Topics: []string{"b", "a", sse.DefaultTopic}, Cancel: cancelWho == 2}},
 			Pubs: [][]MsgP{{{"m1", tAB}, {"m2", tC}}, {{"m3", []string{sse.DefaultTopic, "b"}}}}})
+	}
+	// a Shutdown in the middle of it all: whatever was published before it was requested still reaches everybody
+	for _, slow := range bools {
+		if slow && tier != "thorough" {
+			continue
+		}
+		add(Params{Name: fmt.Sprintf("shutdown-concurrent-slow%v", slow), PreInit: true, Preempt: -1, Shutdown: true,
+			Subs: []SubP{{Topics: tA, Slow: slow}, {Topics: tAB, Slow: slow}},
+			Pubs: [][]MsgP{{{"m1", tA}, {"m2", tAB}}, {{"m3", tB}}}})
 	}
 	// long topic lists (a dozen topics per message): matching must not depend on list length or on earlier messages
 	many := func(first string, prefix string) []string {
@@ -223,7 +257,7 @@ func Scenarios(tier string) []run.Scenario {
 
 var Check = &run.Check{
 	ID: "C03", Level: "model_checking",
-	Rule: "Scenarios: 2-3 subscribers on disjoint/overlapping/default topics (one of them cancelled by a thread that first notes which Publish calls had returned), 2-3 publisher threads with 3-4 messages, fast and slow (yielding) clients, Joe pre-initialised or initialised by the racing calls, final Shutdown; all interleavings (unbounded, state-key pruning), all select tie-breaks, all map orders. The recording replayer's call order is the serialisation witness.",
+	Rule: "Scenarios: 2-3 subscribers on disjoint/overlapping/default topics (one of them cancelled by a thread that first notes which Publish calls had returned), 2-3 publisher threads with 3-4 messages, fast and slow (yielding) clients, Joe pre-initialised or initialised by the racing calls, final Shutdown (or a Shutdown racing everything, after noting which Publish calls had returned); all interleavings (unbounded, state-key pruning), all select tie-breaks, all map orders. The recording replayer's call order is the serialisation witness.",
 	Assumptions: []string{
 		"schedules are explored at the granularity of synchronisation operations under sequential consistency (DESIGN.md 2.1)",
 		"'published before cancellation was requested' is decided inside each execution through a shared flag set after Publish returned and read by the cancelling thread (an under-approximation of what is owed, never an over-approximation)",
